@@ -172,7 +172,7 @@ func applyMutant(src []byte, m Mutant) []byte {
 func Mutate(repo, prop string, jobs, max int, seed int) (MutationSummary, error) {
 	var sum MutationSummary
 	r := rules.Get(prop)
-	if r == nil {
+	if r == nil && prop != "any" {
 		return sum, fmt.Errorf("no rule %s", prop)
 	}
 	p, err := an.LoadFast(repo, nil)
@@ -180,10 +180,15 @@ func Mutate(repo, prop string, jobs, max int, seed int) (MutationSummary, error)
 		return sum, err
 	}
 	ctx := an.NewCtx(p, prop, "mutate")
-	func() {
-		defer func() { recover() }()
-		rules.Execute(r, ctx)
-	}()
+	for _, id := range rules.IDs() {
+		if prop != "any" && id != prop {
+			continue
+		}
+		func() {
+			defer func() { recover() }()
+			rules.Execute(rules.Get(id), ctx)
+		}()
+	}
 	base := map[string]bool{}
 	for _, o := range ctx.Obls {
 		if o.Status != an.Discharged {
